@@ -520,7 +520,7 @@ class SchedRunner:
     def wait_progress(self, alive):
         """Processes are alive but the harness has nothing to release. Wait for events/exits; a process tree that
         makes no progress at all is a hang (proved by zero CPU over two windows). Returns False to stop."""
-        t_end = time.time() + 10.0
+        t_end = time.time() + float(self.sopts.get("silence_s", 10.0))
         while time.time() < t_end:
             if self.pump():
                 return True
